@@ -63,6 +63,8 @@ def indep_facts(v4):
                 unlock = body.rfind(stem + 'Mutex.Unlock()')
                 deferred = re.search(re.escape(stem) + r'Mutex\.Lock\(\)\s*\n\s*defer ' + re.escape(stem) + r'Mutex\.Unlock\(\)', body)
                 ok = bool(uses) and lock >= 0 and lock < min(uses) and ((unlock > max(uses)) or (deferred is not None and deferred.start() < min(uses)))
+                # ONE critical section: a lookup and an insertion in two separate Lock/Unlock pairs is check-then-act
+                ok = ok and body.count(stem + 'Mutex.Lock()') == 1 and body.count(stem + 'Mutex.Unlock()') == 1
                 # nothing may touch the map outside the accessor
                 outside = src[:m.start()] + src[m.end():m.end() + acc.start()] + src[m.end() + acc.end():]
                 if re.search(re.escape(reg) + r'\b', outside):
